@@ -312,6 +312,21 @@ func genEvidence(r *vh.RNG, s *scenario, parent uint64) (line string, story stri
 	return
 }
 
+// reencode returns another encoding of the same two-pair evidence: pairs swapped, and/or another claimed vote kind
+// (the blob, hence any hash of it, differs; the equivocation is the same).
+func reencode(r *vh.RNG, line string) string {
+	f := strings.Fields(line)
+	if len(f) != 12 || f[2] != "S" || f[7] != "2" {
+		return ""
+	}
+	g := append([]string{}, f...)
+	g[8], g[9], g[10], g[11] = f[10], f[11], f[8], f[9]
+	if r.Bool() && f[6] != "5" {
+		g[6] = []string{"2", "3", "4", "0"}[r.Intn(4)]
+	}
+	return strings.Join(g, " ")
+}
+
 // genUnit produces one U case.
 func genUnit(r *vh.RNG, s *scenario, dist func(string)) []string {
 	parent := s.head
@@ -368,6 +383,10 @@ func genUnit(r *vh.RNG, s *scenario, dist func(string)) []string {
 		if r.Chance(12) { // the same evidence twice in one list (once-per-validator map)
 			lines = append(lines, l)
 			dist("ev:repeated-in-list")
+		}
+		if re := reencode(r, l); re != "" && r.Chance(20) { // the same equivocation in another encoding
+			lines = append(lines, re)
+			dist("ev:re-encoded-in-list")
 		}
 	}
 	return lines
